@@ -64,7 +64,7 @@ PROPS = {
                      "maximum 2-21; hook points inside the protocol inject random yields/sleeps (4 perturbation modes); after the calls return NO further cache call is made: only atomic loads of the drain "
                      "status and write-buffer size until quiescent (3 s limit), then status idle, buffer empty, bound restored, every write linked in the policy, OnDeletion count = OnAtomicDeletion count; "
                      "distinct_nontrivial = distinct (writers, readers, perturbation, burst) combinations",
-                assumptions=["the Coq theorems are exhaustive over schedules for 1 and 2 initial writer threads (and 1 writer + 1 CleanUp caller) only; larger populations are exercised by the engines, not proved",
+                assumptions=["the unbounded theorem is about configurations in which nothing can move; that every schedule is finite (fair termination) is not proved",
                              "the sched engine interleaves at hook-point granularity (9 points): interleavings inside one macro step (e.g. between the status store and the executor call) are covered by the small-step theorem only through the model",
                              "sync.Mutex, goroutine creation and the memory model of sync/atomic are modelled", "InvalidateAll and the 100-refusal caller-runs fallback are outside the model"]),
     "C08": dict(engines=[LOAD], rule=LOAD_RULE, assumptions=LOAD_ASSUME),
